@@ -1479,7 +1479,7 @@ fn gen_intern(rec: &mut Rec, rng: &mut Rng, cases: u64) {
                 3 => {
                     let k = mp::gen_key(rng);
                     if std::str::from_utf8(&k).is_ok() {
-                        rec.op(&format!("cached {}", hex0(&k)));
+                        rec.op(&format!("{} {}", if rng.chance(1, 2) { "cached" } else { "cacheds" }, hex0(&k)));
                     }
                 }
                 4 | 5 if !ids.is_empty() => {
@@ -1717,7 +1717,17 @@ fn gen_thread_script(rng: &mut Rng, n: usize) -> Vec<String> {
             v.push(format!("interncopy {}", hex0(&p)));
             continue;
         }
-        match rng.below(10) {
+        match rng.below(12) {
+            10 => {
+                // a cached id handle shared by every thread (a guest's `static`), from a small pool so that
+                // threads load the same handles in different orders
+                let k = *rng.pick(&["alpha", "beta", "gamma", "id"]);
+                v.push(format!("cacheds {}", hex0(k.as_bytes())));
+            }
+            11 => {
+                let k = *rng.pick(&["alpha", "beta", "name"]);
+                v.push(format!("intern {}", hex0(k.as_bytes())));
+            }
             0 => v.push("root".to_string()),
             1 => v.push("idx h0 0".to_string()),
             2 => {
